@@ -261,6 +261,106 @@ mod termination_replay {
     }
 }
 
+/// Objective whose route-level and activity-level estimates are given per vehicle (one job).
+struct PerVehicleObjective {
+    route: Vec<Float>,
+    activity: Vec<Float>,
+}
+
+impl FeatureObjective for PerVehicleObjective {
+    fn fitness(&self, _: &InsertionContext) -> Float {
+        0.
+    }
+
+    fn estimate(&self, move_ctx: &MoveContext<'_>) -> Float {
+        let idx = |id: Option<&String>| id.unwrap()[1..].parse::<usize>().unwrap();
+        match move_ctx {
+            MoveContext::Route { job, .. } => self.route[idx(job.dimens().get_job_id())],
+            MoveContext::Activity { activity_ctx, .. } => {
+                self.activity[idx(activity_ctx.target.job.as_ref().unwrap().dimens.get_job_id())]
+            }
+        }
+    }
+}
+
+/// Parallel insertion evaluation of several jobs (estimates given per job) over empty routes under different thread counts.
+fn fold_order(case: &Value) {
+    use vrp_core::models::{Extras, FeatureBuilder, Problem};
+    use vrp_core::rosomaxa::utils::ThreadPool;
+    let floats = |v: &Value| v.as_array().unwrap().iter().map(|x| x.as_f64().unwrap()).collect::<Vec<_>>();
+    let (route, activity) = (floats(&case["route_estimates"]), floats(&case["activity_estimates"]));
+    let n_jobs = route.len();
+    let n = case.get("routes").and_then(|v| v.as_u64()).unwrap_or(1) as usize;
+    let vehicles = (0..n)
+        .map(|idx| {
+            let mut dimens = Dimensions::default();
+            dimens.set_vehicle_id(format!("v{idx}"));
+            Arc::new(Vehicle {
+                profile: Profile::default(),
+                costs: costs(&Value::Null),
+                dimens,
+                details: vec![VehicleDetail {
+                    start: Some(VehiclePlace { location: 0, time: TimeInterval { earliest: Some(0.), latest: None } }),
+                    end: None,
+                }],
+            })
+        })
+        .collect::<Vec<_>>();
+    let driver = Driver { costs: costs(&Value::Null), dimens: Default::default(), details: vec![] };
+    let fleet = Arc::new(Fleet::new(vec![Arc::new(driver)], vehicles, |_| |_| 0));
+    let transport: Arc<dyn TransportCost> =
+        Arc::new(Matrix { dur: HashMap::new(), dist: HashMap::new(), dur_default: 0., dist_default: 0. });
+    let activity_cost: Arc<dyn ActivityCost> = Arc::new(SimpleActivityCost::default());
+    let feature = FeatureBuilder::default()
+        .with_name("table")
+        .with_objective(PerVehicleObjective { route, activity })
+        .build()
+        .unwrap();
+    let goal_ctx = GoalContextBuilder::with_features(&[feature]).unwrap().build().unwrap();
+    let logger: vrp_core::rosomaxa::utils::InfoLogger = Arc::new(|_| ());
+    let jobs: Vec<Job> = (0..n_jobs)
+        .map(|idx| {
+            let mut dimens = Dimensions::default();
+            dimens.set_job_id(format!("j{idx}"));
+            Job::Single(Arc::new(Single {
+                places: vec![Place { location: Some(1), duration: 0., times: vec![TimeSpan::Window(TimeWindow::max())] }],
+                dimens,
+            }))
+        })
+        .collect();
+    let jobs_index = vrp_core::models::problem::Jobs::new(&fleet, jobs.clone(), transport.as_ref(), &logger).unwrap();
+    let problem = Arc::new(Problem {
+        fleet: fleet.clone(),
+        jobs: Arc::new(jobs_index),
+        locks: vec![],
+        goal: Arc::new(goal_ctx),
+        activity: activity_cost,
+        transport,
+        extras: Arc::new(Extras::default()),
+    });
+    let ictx = InsertionContext::new_empty(problem, Arc::new(vrp_core::rosomaxa::utils::Environment::default()));
+    let routes: Vec<RouteContext> = fleet.actors.iter().map(|actor| RouteContext::new(actor.clone())).collect();
+    let route_refs: Vec<&RouteContext> = routes.iter().collect();
+    let job_refs: Vec<&Job> = jobs.iter().collect();
+    let mut results = vec![];
+    for threads in 1..=4 {
+        for _ in 0..5 {
+            let result = ThreadPool::new(threads).execute(|| {
+                PositionInsertionEvaluator::default().evaluate_all(
+                    &ictx,
+                    &job_refs,
+                    &route_refs,
+                    &LegSelection::Exhaustive,
+                    &BestResultSelector::default(),
+                )
+            });
+            let cost: Option<Vec<Float>> = result.as_success().map(|s| s.cost.iter().collect());
+            results.push(json!({"threads": threads, "cost": cost}));
+        }
+    }
+    println!("{}", serde_json::to_string(&json!({"results": results})).unwrap());
+}
+
 /// Reducer replay: pair `left`/`right`, or three `leaves` combined along the given tree `shape`.
 fn reducer(case: &Value) {
     let vehicle = Vehicle {
@@ -354,6 +454,9 @@ fn main() {
     }
     if case["kind"] == "reducer" {
         return reducer(&case);
+    }
+    if case["kind"] == "fold_order" {
+        return fold_order(&case);
     }
 
     let closed = case["closed"].as_bool().unwrap_or(true);
